@@ -61,6 +61,19 @@ CHECKS = {
             "must be refused with the document unchanged.",
             TRUST + "Matched positions are decided by the C01 reference "
             "evaluator.", "6/C04"),
+    "C08": (True, "exploration",
+            "exhaustive small-scope enumeration of segment ASTs + Hypothesis "
+            "generation with an independent writer; round-trip oracle "
+            "(write -> parse -> compare; str -> parse; equality; append/pop)",
+            "Every sequence of <= 2 segments from a ~240-item vocabulary "
+            "covering all segment kinds, rendered by an independent writer "
+            "in both notations and three escaping styles, must parse back to "
+            "exactly the written segments; its canonical string must re-parse "
+            "identically and be a fixed point in both notations; equality "
+            "must coincide with AST equality; append+pop must restore. "
+            "Random <= 6-segment ASTs extend the scope.",
+            TRUST + "The writer (vp/model/pathast.py) encodes the documented "
+            "escapes and demarcation and is part of the oracle.", "6/C08"),
     "C09": (True, "exploration",
             "exhaustive small-scope enumeration with a before/after snapshot "
             "invariant (purity) and a pattern oracle with wildcards for "
